@@ -8,6 +8,8 @@ import Peppi.Lemmas.PeppiRound
 import Peppi.Lemmas.C09P
 import Peppi.Tar
 import Peppi.SlppBytes
+import Peppi.TarCut
+import Peppi.SlppCut
 set_option linter.unusedVariables false
 namespace Peppi.Props.C18
 
@@ -66,5 +68,19 @@ theorem slppWrite_signature {χ : Type} (C : Codec χ) (g : PGame χ) (startByte
 theorem tarArchive_length_ge (es : List (Bytes × Bytes)) (hn : ∀ e ∈ es, e.1.length ≤ 100) :
     512 * es.length + 1024 ≤ (tarArchive es).length :=
   _root_.Peppi.tarArchive_length_ge es hn
+
+/- from `Peppi.TarCut` -/
+theorem tarScan_cut (es : List (Bytes × Bytes)) (hes : ∀ e ∈ es, EntryOK e) (fuel : Nat) (hf : es.length < fuel) (n : Nat) :
+    tarScan fuel ((tarArchive es).take n) = cutItems es n :=
+  _root_.Peppi.tarScan_cut es hes fuel hf n
+
+/- from `Peppi.SlppCut` -/
+theorem slppReadL_written {χ : Type} (C : CodecT χ) (T : TextOracle) (g : PGame χ) (startBytes : Bytes) (endBytes : Option Bytes)
+    (hstart : gameStart T startBytes = .ok g.start)
+    (hend : endBytes.map gameEnd = g.fend.map Res.ok)
+    (hgecko : ∀ c, g.gecko = some c → c.2 < 2 ^ 32)
+    (hs : SizesOK C.toCodec g startBytes endBytes) (skip : Bool) :
+    slppReadL C.toCodec T skip (slppWrite C.toCodec g startBytes endBytes) = .ok (if skip then { g with frames := none } else g) :=
+  _root_.Peppi.slppReadL_written C T g startBytes endBytes hstart hend hgecko hs skip
 
 end Peppi.Props.C18
